@@ -68,7 +68,9 @@ C08Rules(r, f) ==
           <<"C08.finalize-succeeds", (r.new.ret = "ok" /\ whole >= 1 /\ ~r.werr /\ ~r.wpanic /\ (decl = -1 \/ decl = whole))
                                         => r.fin.ret = "ok">>,
           <<"C08.same-bytes", (r.fin.ret = "ok" /\ key \in DOMAIN groups) => groups[key] = <<f.len - r.new.start, f.md5s>> >>,
-          <<"C08.prefix-untouched", f.prefix_intact>> >>
+          <<"C08.prefix-untouched", f.prefix_intact>>,
+          \* the path-taking constructors (create + overwrite over an existing longer file) are front ends like the others
+          <<"C08.path-front-end-same-bytes", Has(f, "path_same") => f.path_same>> >>
 C08Drift(r, f) ==
     r.fin.ret = "ok" => [i \in 1..Len(f.enc) |-> f.enc[i][2]] = Canon(f.whole_frames, r.new.bs)
 
